@@ -85,7 +85,22 @@ class Universe:
         def remove_modifier(a):
             b, m = self.split(a[1])
             return tid(b)
-        return {"TypeRegistry::extract_modifier": extract_modifier, "TypeRegistry::get_type_layer": get_type_layer,
+        def register_type(a):
+            layer = a[1]
+            for b, l in self.base.items():
+                if l == layer:
+                    return tid(b)
+            raise I.Unknown("register_type of a layer outside the model: %r" % (layer,))
+
+        def combine_modifier(a):
+            b, m = self.split(a[1])
+            mod = a[2]
+            for k, d in MODS.items():
+                if isinstance(mod, I.Enum) and all(bool(mod.fields.get(f_)) == bool(d.get(f_, False)) for f_ in MOD_FIELDS):
+                    return tid(b + 1000 * k)
+            raise I.Unknown("modifier outside the model")
+        return {"TypeRegistry::register_type": register_type, "TypeRegistry::combine_modifier": combine_modifier,
+                "TypeRegistry::extract_modifier": extract_modifier, "TypeRegistry::get_type_layer": get_type_layer,
                 "TypeRegistry::extract_scalar": extract_scalar, "TypeRegistry::remove_modifier": remove_modifier}
 
 
@@ -94,6 +109,7 @@ class Conversions:
 
     def __init__(self, facts, crate="rssl_typer"):
         self.u = Universe(facts)
+        self.facts = facts
         self.find_fn = facts.fn("find", crate, self_ty="ImplicitConversion")
         self.rank_fn = facts.fn("get_rank", crate, self_ty="ImplicitConversion")
         self.ip = I.Interp(facts, max_depth=8, extern=self.u.externs())
@@ -112,6 +128,15 @@ class Conversions:
         if isinstance(r, I.Enum) and r.variant == "Ok":
             return ("Ok", r.fields["0"])
         return ("unreadable", repr(r))
+
+    def apply(self, conv, expr):
+        """ImplicitConversion::apply(conv, expr, module) -> resulting ir::Expression value | ('aborts'|'unreadable', why)"""
+        fn = self.facts.fn("apply", "rssl_typer", self_ty="ImplicitConversion")
+        try:
+            return self.ip.apply(fn, [conv, expr, I.Opaque("module")])
+        except I.Unknown as e:
+            msg = str(e)
+            return ("aborts" if "panicking" in msg else "unreadable", msg)
 
     @staticmethod
     def parts(conv):
